@@ -225,6 +225,19 @@ theorem admitted_when_free (sids : List Sid) (sched : List Nat) (t : Nat) (s : S
   obtain ⟨hlt, _⟩ := List.getElem?_eq_some_iff.1 hy
   unfold step; rw [hy]; simp [hp, hlt]
 
+/-- **C09 (a), quiescence.** Whenever no request is running — however the earlier ones ended — no session id is
+    left pending, so every id can be started again. -/
+theorem quiescent_clears_flags (sids : List Sid) (sched : List Nat)
+    (h : ∀ p ∈ (run (init sids) sched).th, p.2 ≠ St.running) : (run (init sids) sched).pending = [] := by
+  have hI := (inv_run (init sids) sched (inv_init sids) (inv2_init sids)).1
+  generalize run (init sids) sched = w at *
+  apply List.eq_nil_iff_forall_not_mem.2
+  intro s hs
+  have h1 := hI s
+  simp only [hs, if_true, running] at h1
+  have hm : (s, St.running) ∈ w.th := List.count_pos_iff.1 (by omega)
+  exact h _ hm rfl
+
 /-- the as-found admission (flag read outside the lock, set in a second critical section) is NOT mutually
     exclusive: two requests for one id, schedule read–read–set–set, both run. Kept as the witness of the repaired
     defect (corpus line `race a:p:ok,a:p:ok 0,1,0,1`). -/
